@@ -64,6 +64,7 @@ RULES = [
  ('range address follows set_value in iterative', 'C06', 'differs-after-set_value/input-or-range (evaluate of a range address stale in iterative mode)'),
  ('used area is a single cell can be resolved', 'C05', 'unbounded-range-clipped-to-a-single-cell (1x1 used area: AssertionError)'),
  ('freezes to convergence when iterative', 'C08', 'iterative/frozen-circular-block-not-converged/range (block read through a range frozen after one sweep)'),
+ ('array formula which produces a reference', 'C05', 'real-workbook/value-depends-on-order-or-access-path/* (lookup.xlsx Offset!F43:I45 {=OFFSET(...)}: range address gave AddressRange objects, members gave values)'),
  ('an array and an error value', 'C13', 'array-formula-member-not-pointwise/array-with-error-valued-scalar'),
 ]
 
